@@ -144,15 +144,24 @@ func GenConfig(prop string, g *Gen, tier string) Config {
 		c.ValD = "hugestr" // a few entries of 64 KiB and 1 MiB: no size of entry is special
 		c.U = []int{8, 12, 20}[g.Intn(3)]
 	}
+	if (prop == "C05" || prop == "C01") && g.Intn(30) == 0 && c.ValD != "nil" {
+		// only one of the two encoding callbacks is configured; with only Unmarshal set (a JSON
+		// decoder that keeps numbers exact) the values hold a number in an interface field, which
+		// reads back exactly only if that decoder is really the one used
+		c.CbOnly = []string{"unmarshal", "marshal"}[g.Intn(2)]
+		if c.CbOnly == "unmarshal" {
+			c.ValD = "numiface"
+		}
+	}
 	// occasional custom marshaler (gob): only the configurations that the library's
 	// own decode paths support (compact format, example types given)
-	if g.Intn(12) == 0 && c.ValD != "nil" {
+	if g.Intn(12) == 0 && c.ValD != "nil" && c.CbOnly == "" {
 		c.Marshaler = "gob"
 		c.Format = FmtBinary
 		c.KeyD = []string{"int", "string", "uint64", "int64"}[g.Intn(4)]
 		c.ValD = []string{"int", "string"}[g.Intn(2)]
 	}
-	if g.Intn(12) == 0 && c.Marshaler == "json" && c.ValD != "nil" && c.ValD != "inf" {
+	if g.Intn(12) == 0 && c.Marshaler == "json" && c.ValD != "nil" && c.ValD != "inf" && c.CbOnly == "" {
 		// another custom marshaler, usable with every key and value type (compact format only)
 		c.Marshaler = "xjson"
 		c.Format = FmtBinary
@@ -240,7 +249,7 @@ func GenConfig(prop string, g *Gen, tier string) Config {
 	case "C12":
 		// loads must really happen: no cache, a 1-2 entry cache, or the evicting chaos cache
 		c.Cache = []string{"none", "none", "none", "arc-tiny:1", "arc-tiny:2", "chaos"}[g.Intn(6)]
-		c.BF = []uint{2, 2, 3, 4}[g.Intn(4)]
+		c.BF = []uint{2, 2, 3, 4, 4, 5, 8}[g.Intn(7)]
 		c.U = []int{12, 20, 40, 80, 200}[g.Intn(5)]
 		if c.KeyD == "userkey" {
 			c.Layers = genLayers(g, c.U)
@@ -264,6 +273,18 @@ func GenConfig(prop string, g *Gen, tier string) Config {
 			c.BF = []uint{4, 16, 3, 2}[g.Intn(4)]
 			c.CheckEvery = 1 << 30
 		}
+	}
+	if (prop == "C05" || prop == "C04" || prop == "C19" || prop == "C09") && g.Intn(25) == 0 && !c.NoLike && c.Extra == "" && c.CbOnly == "" && !c.CbFaults {
+		// a tree filled to exactly bf^k + 1 entries (one above a height threshold), at branch
+		// factors other than the usual ones
+		c.BF = []uint{6, 7, 10, 14, 10, 3, 5}[g.Intn(7)]
+		c.U = 3200
+		c.KeyD = []string{"int", "uint64", "int64", "uint", "string"}[g.Intn(5)]
+		c.ValD = "int"
+		c.Layers = nil
+		c.Extra = "threshold"
+		c.CheckEvery = 1 << 30
+		c.InMemory = false
 	}
 	if c.NoLike {
 		// registered-types unmarshalling round-trips only JSON-native types: strings it is, whatever
@@ -358,7 +379,19 @@ func GenScenario(prop string, seed uint64, tier string) *Scenario {
 		s.emitBulk(0, g.Range(300, 500))
 		nOps = g.Range(6, 24)
 	}
-	if cfg.U >= 2000 {
+	if cfg.Extra == "threshold" {
+		n := 1
+		var sizes []int
+		for n*int(cfg.BF) <= 3000 {
+			n *= int(cfg.BF)
+			sizes = append(sizes, n+1)
+		}
+		target := sizes[len(sizes)-1-g.Intn(min(2, len(sizes)))]
+		s.emitFill(0, target)
+		s.emitPersist(0, prop)
+		s.emit("reload", prop)
+		nOps = g.Range(4, 14)
+	} else if cfg.U >= 2000 {
 		// big-tree run: start with a bulk load
 		s.emitBulk(0, g.Range(cfg.U/4, cfg.U*3/4))
 		s.emitPersist(0, prop)
@@ -413,6 +446,20 @@ func (s *genState) emitMotif(prop string) {
 	nMotifs := 5
 	if prop == "C03" {
 		nMotifs = 8
+		if s.cfg.Disks >= 2 && g.Intn(3) == 0 {
+			// an interrupted replication of a persisted version, rebuilt on the other store
+			s.emitPersist(ti, "")
+			vi := len(s.vers) - 1
+			if vi < 0 || s.vers[vi].kind != "root" || s.vers[vi].maybeDead || len(s.vers[vi].snap) == 0 {
+				return
+			}
+			v := s.vers[vi]
+			op := Op{K: "replica", T: g.Intn(maxTrees), A: refVerBase + vi}
+			s.ops = append(s.ops, op)
+			s.place(op.T, &genTree{model: cpMap(v.snap), base: cpMap(v.snap), hasRoot: true, baseVer: -1, disk: (v.disk + 1) % s.cfg.Disks})
+			s.vers = append(s.vers, &genVer{kind: "root", snap: cpMap(v.snap), disk: (v.disk + 1) % s.cfg.Disks, maybeDead: true})
+			return
+		}
 	}
 	if (prop == "C12" || prop == "C10") && g.Intn(4) == 0 {
 		// a tall persisted tree, read back through whatever cache there is, and a cursor that
@@ -441,6 +488,81 @@ func (s *genState) emitMotif(prop string) {
 			}
 			s.ops = append(s.ops, op)
 		}
+		return
+	}
+	if prop == "C12" && g.Intn(3) == 0 {
+		// a persisted tree, a few unsaved edits (so that some children of the upper nodes are
+		// private in-memory copies while their neighbours are still only in the store), then the
+		// delete of a key held by an upper node: its two children are merged level by level
+		variant := g.Intn(3)
+		if variant == 0 {
+			s.emitBulk(ti, g.Range(30, 160))
+		}
+		if variant == 2 {
+			// bring the tree to exactly one entry above a shrink threshold (bf^h + 1), keeping
+			// its upper keys: the delete below then has to shrink, after the merge
+			t := s.trees[ti]
+			target := int(s.cfg.BF) + 1
+			if len(t.model) > int(s.cfg.BF)*int(s.cfg.BF)+1 && g.Intn(2) == 0 {
+				target = int(s.cfg.BF)*int(s.cfg.BF) + 1
+			}
+			var low []int
+			for kk := range t.model {
+				if s.layerOf(kk) == 0 {
+					low = append(low, kk)
+				}
+			}
+			sort.Ints(low)
+			for len(t.model) > target && len(low) > 0 {
+				j := g.Intn(len(low))
+				k := low[j]
+				low = append(low[:j], low[j+1:]...)
+				s.ops = append(s.ops, Op{K: "del", T: ti, Key: k, Val: t.model[k]})
+				delete(t.model, k)
+			}
+			if len(t.model) != target {
+				return
+			}
+		}
+		s.emitPersist(ti, prop)
+		t := s.trees[ti]
+		if len(t.model) < 4 {
+			return
+		}
+		for i, n := 0, 1+g.Intn(3); i < n; i++ {
+			k := s.anyKey(t, 40)
+			if variant == 2 {
+				// value updates only: the size stays on the threshold
+				var present []int
+				for kk := range t.model {
+					present = append(present, kk)
+				}
+				sort.Ints(present)
+				k = present[g.Intn(len(present))]
+			}
+			s.ops = append(s.ops, Op{K: "ins", T: ti, Key: k, Val: 5})
+			t.model[k] = 5
+		}
+		var upper []int
+		best := 0
+		for kk := range t.model {
+			if l := s.layerOf(kk); l > best {
+				best = l
+			}
+		}
+		for kk := range t.model {
+			if l := s.layerOf(kk); l >= 1 && l >= best-1 {
+				upper = append(upper, kk)
+			}
+		}
+		if len(upper) == 0 {
+			return
+		}
+		sort.Ints(upper)
+		k := upper[g.Intn(len(upper))]
+		s.ops = append(s.ops, Op{K: "del", T: ti, Key: k, Val: t.model[k]})
+		delete(t.model, k)
+		t.dirty = true
 		return
 	}
 	switch g.Intn(nMotifs) {
@@ -591,6 +713,21 @@ func (s *genState) emitMotif(prop string) {
 		s.emit("fork", prop)
 		s.emit("ins", prop)
 	}
+}
+
+func (s *genState) emitFill(ti int, n int) {
+	t := s.trees[ti]
+	start := 0
+	if s.g.Intn(2) == 0 {
+		start = s.g.Intn(100)
+	}
+	s.ops = append(s.ops, Op{K: "fill", T: ti, N: n, Key: start})
+	for k := start; k < s.cfg.U && len(t.model) < n; k++ {
+		if _, ok := t.model[k]; !ok {
+			t.model[k] = k % 50
+		}
+	}
+	t.dirty = true
 }
 
 func (s *genState) emitBulk(ti int, n int) {
